@@ -41,6 +41,14 @@ CLAIMS = {
    text="Generated stores of boundary kinds and expiration values around an injected clock (T-1,T,T+1, 9/10/11 digits, malformed spellings, integer-typed, two tags), one pass of each backend's own collector: MUST-go / MUST-stay / MAY verdicts from an independent reading of NIP-40, index hygiene (LMDB keyspace walk, SQL orphan tag rows), ephemeral pushed live and not queryable afterwards.",
    note="Clock injected via module-level time(); LMDB never stores ephemeral events so their removal is exercised on SQL only.",
    tech="property-based testing with a reference verdict function and raw-dump oracle"),
+ "C18": dict(cat="exploration",
+   text="The real RateLimiter under an injected clock: exhaustive small scope (25 rule configurations x every arrival sequence of length <=4/6 over a 6-point time grid x 2 addresses), random long runs (20-400 arrivals, sustained traffic, IPv4+IPv6, 1-3 rules per command) and a rule-string grammar vs reference parse. Oracles over the limiter's own decisions: window safety, no over-blocking, exact-address override, -1 exemption, bounded per-scope history, idle addresses dropped on cleanup.",
+   note="Clock injected via RateLimiter._timestamp; dyadic time steps. One open known finding (F27: global scope counts messages the ip scope then refuses) is pinned by the repository's own test and tolerated by a narrow classifier.",
+   tech="property-based testing + bounded-exhaustive enumeration with invariant oracles over the admission history"),
+ "C20": dict(cat="exploration",
+   text="Real NotifyServer.handle_notify and NotifyClient.connect/notify wired through harness-owned streams (real asyncio.StreamReader, recording writers); Hypothesis draws worker count, announcement sequences and the chunking of every byte stream (splits inside/across ids, coalescing, interleaved senders, peer closing mid-id). Oracle: ids looked up at each receiver == ids completely transmitted by the other workers, intact, once, per-sender order, no echo; one local fan-out per existing event.",
+   note="TCP modelled as reliable ordered byte streams; storage side faked (get_event / notify_all_connected recorded).",
+   tech="property-based testing with harness-owned transport schedule (chunking) and multiset/order oracle"),
 }
 NA_REASON = "check under construction in this session; will be claimed when it is quiet and sensitive"
 
